@@ -112,8 +112,11 @@ func c17(c *vc.Ctx) {
 	fnAlpha := []string{"a", "*", "?", "[", "]", "!", `\`, "/", "."}
 	fnLen := vc.Pick(c, 4, 5)
 	fnMore := vc.Pick(c, false, true)
-	c.Rule = fmt.Sprintf("all patterns of <=%d symbols over %q plus all of exactly %d..%d symbols over %q; modes EntireString x {plain, ExtendedOperators (patterns with '('), NoGlobCase (patterns with letters or '[')}; every pattern's regexp is run on all %d subjects (strings <=%d over %q) plus pattern-derived subjects, and the set of matching subjects is compared with bash 5.2 `case $s in $p)` (extglob/nocasematch set accordingly). !(...) patterns go through internal.ExtendedPatternMatcher. Unanchored mode 0 and Shortest are checked for consistency with the anchored language. Filenames dimension: the patterns of <=%d symbols over the first alphabet plus all of exactly %d..%d symbols over %q (patterns starting with '/' excepted), in modes Filenames|EntireString|NoGlobStar x {plain, GlobLeadingDot, NoGlobCase (letters or '['), ExtendedOperators ('(')%s} and Filenames|EntireString x {plain, GlobLeadingDot} for patterns holding '**'; the set of paths accepted by the regexp is compared with what bash 5.2 pathname expansion of the unquoted pattern returns (dotglob/nocaseglob/extglob/globstar as per mode, nullglob) in a directory tree holding %d subject paths (one- and two-level paths with component names of <=2 characters over %q / %q, each also with a trailing slash) and in a private tree holding the pattern-derived paths; every path bash returns must be accepted as well. distinct = distinct (mode, match-set) outcomes", fullLen, full, fullLen+1, redLen, reduced, len(subjects), subjLen, c17SubjAlphabet,
-		fullLen, fullLen+1, fnLen, fnAlpha, map[bool]string{false: "", true: ", NoGlobCase|GlobLeadingDot, ExtendedOperators|GlobLeadingDot"}[fnMore], c17FnSubjectCount(), c17FnAlpha1, c17FnAlpha2)
+	brInner := []string{"a", "!", "/", `\/`, "]", "-", "."}
+	brPre, brSuf := []string{"", "a", "*"}, []string{"", "a"}
+	brLen := vc.Pick(c, 2, 3)
+	c.Rule = fmt.Sprintf("all patterns of <=%d symbols over %q plus all of exactly %d..%d symbols over %q; modes EntireString x {plain, ExtendedOperators (patterns with '('), NoGlobCase (patterns with letters or '[')}; every pattern's regexp is run on all %d subjects (strings <=%d over %q) plus pattern-derived subjects, and the set of matching subjects is compared with bash 5.2 `case $s in $p)` (extglob/nocasematch set accordingly). !(...) patterns go through internal.ExtendedPatternMatcher. Unanchored mode 0 and Shortest are checked for consistency with the anchored language. Filenames dimension: the patterns of <=%d symbols over the first alphabet plus all of exactly %d..%d symbols over %q, plus the bracket family {empty, a, *} + '[' + 1..%d symbols over %q + ']' + {empty, a} (patterns starting with '/' or holding an empty path component excepted), in modes Filenames|EntireString|NoGlobStar x {plain, GlobLeadingDot, NoGlobCase (letters or '['), ExtendedOperators ('(')%s} and Filenames|EntireString x {plain, GlobLeadingDot} for patterns holding '**'; the set of paths accepted by the regexp is compared with what bash 5.2 pathname expansion of the unquoted pattern returns (dotglob/nocaseglob/extglob/globstar as per mode, nullglob) in a directory tree holding %d subject paths (one- and two-level paths with component names of <=2 characters over %q / %q, each also with a trailing slash) and in a private tree holding the pattern-derived paths; every path bash returns must be accepted as well. distinct = distinct (mode, match-set) outcomes", fullLen, full, fullLen+1, redLen, reduced, len(subjects), subjLen, c17SubjAlphabet,
+		fullLen, fullLen+1, fnLen, fnAlpha, brLen, brInner, map[bool]string{false: "", true: ", NoGlobCase|GlobLeadingDot, ExtendedOperators|GlobLeadingDot"}[fnMore], c17FnSubjectCount(), c17FnAlpha1, c17FnAlpha2)
 	c.Assumptions = []string{"bash 5.2.15 in LC_ALL=C.utf8 is the oracle for pattern semantics", "a syntax error is accepted only for patterns in a loose malformed class (trailing backslash, [: [. [= elements, reversed range)", "Filenames modes: bash 5.2.15 pathname expansion in a scratch directory tree is the oracle (not a model of it); a pattern that bash hands back verbatim without treating it as a pattern (no unquoted *, ?, or [..] as bash sees it) is judged by the documented rule instead: it matches exactly its own text with the backslash escapes removed (case-insensitively with NoGlobCase)",
 		"Filenames without EntireString is not enumerated (documented as meaningless); the behaviour of expand's own pathname expansion built on these expressions is C19's subject"}
 	defer c17FnCleanup()
@@ -155,6 +158,16 @@ chk() { # id flag expected pattern extras...
 		genFn := func(p string) {
 			for _, m := range c17FnModes(p, fnMore) {
 				emit(patCase{p, uint(m)})
+			}
+		}
+		// bracket expressions with plain and escaped slashes, in context
+		for _, pre := range brPre {
+			for _, suf := range brSuf {
+				enum.Seqs(brInner, brLen, func(in []string) {
+					if len(in) > 0 {
+						genFn(pre + "[" + strings.Join(in, "") + "]" + suf)
+					}
+				})
 			}
 		}
 		enum.Strings(full, fullLen, genFn)
